@@ -13,6 +13,9 @@ import (
 
 func init() {
 	registry["C02"] = checkDef{level: "model_checking", run: c02, replay: func(kind string, raw json.RawMessage) int {
+		if "quietspell" == kind {
+			return quietSpellReplay(raw)
+		}
 		if "c02insert" == kind {
 			fmt.Println("Ctrl+I findings are replayed by re-running ./run C02 quick; the failing size is in the artefact")
 			return 2
@@ -93,6 +96,7 @@ func c02(r *ev.Result, tier string) {
 	exploreProfiles(r, budget, c02Profiles(isQuick(tier))...)
 	/* The HTTP seam: the same clauses through the real handlers over TLS. */
 	c02HTTP(r)
+	quietSpell(r, "C02")
 
 	/* Payload enumeration: each payload is entered once before the shell
 	attaches and once after, on every writer kind. */
